@@ -53,26 +53,28 @@ Judge(rec) ==
     LET op == rec.in.op
         files == BaseSet(rec) \cup {rec.ctl}
         ctlInDst == StateOf(rec.after.dst, rec.ctl)
-        class == IF HasOutside(rec) THEN "outside-name" ELSE IF HasSub(rec) THEN "unspecified"
+        partial == "lists" \in DOMAIN rec.in
+        class == IF partial THEN (IF HasOutside(rec) THEN "partial-lists-outside-name" ELSE "partial-lists")
+                 ELSE IF HasOutside(rec) THEN "outside-name" ELSE IF HasSub(rec) THEN "unspecified"
                  ELSE IF Faulted(rec) THEN "fault-" \o rec.in.fault.kind ELSE "success-path"
     IN Checks(class,
        << <<~rec.panic, "panic">>,
           <<rec.in.fault.kind = "hook" => rec.hook_fired, "failpoint did not fire (harness)">>,
-          <<ControlLastOnTrace(rec), "control file became visible in the destination before a listed file was complete">>,
-          <<op \in {"move", "remove"} => RemoveLastOnTrace(rec), "control file left the source directory before a listed file">>,
+          <<partial \/ ControlLastOnTrace(rec), "control file became visible in the destination before a listed file was complete">>,
+          <<(op \in {"move", "remove"} /\ ~partial) => RemoveLastOnTrace(rec), "control file left the source directory before a listed file">>,
           <<ConfinedOnTrace(rec), "a file outside the control file's directory and the destination was read, moved or deleted">>,
           <<rec.err => ctlInDst \in {"absent", "dir"}, "an error was returned but the control file is in the destination">>,
           <<(rec.err /\ op = "move" /\ ~(rec.in.fault.kind \in {"missing", "srcdir"} /\ rec.in.fault.at = Len(rec.bases) + 1))
                 => StateOf(rec.after.src, rec.ctl) = "full:ctl",
             "a move failed but the control file is no longer at its source">>,
           <<(AllPlain(rec) /\ Faulted(rec)) => rec.err, "a step failed but no error was returned">>,
-          <<(AllPlain(rec) /\ ~Faulted(rec)) => ~rec.err, "plain upload without faults failed">>,
-          <<(~rec.err /\ op \in {"copy", "move"}) =>
+          <<(AllPlain(rec) /\ ~Faulted(rec) /\ ~partial) => ~rec.err, "plain upload without faults failed">>,
+          <<(~rec.err /\ op \in {"copy", "move"} /\ ~partial) =>
                 (rec.handle = "dst" /\ \A f \in files : StateOf(rec.after.dst, f) = KeyOf(rec, f)),
             "after success the handle does not point at the destination or a file differs from the original">>,
           <<(~rec.err /\ op = "copy" /\ AllPlain(rec)) => \A f \in files : StateOf(rec.after.src, f) = KeyOf(rec, f),
             "copy altered the source files">>,
-          <<(~rec.err /\ op \in {"move", "remove"} /\ AllPlain(rec)) => \A f \in files : StateOf(rec.after.src, f) = "absent",
+          <<(~rec.err /\ op \in {"move", "remove"} /\ AllPlain(rec) /\ ~partial) => \A f \in files : StateOf(rec.after.src, f) = "absent",
             "after a successful move/remove a file is still at its source">> >>)
 
 Init == l \in 1..Len(Trace) /\ verdict = Pending
